@@ -335,7 +335,28 @@ func runCheck(P *Prog, prop, tier string, seed int, writeBase bool, t0 time.Time
 		fmt.Printf("ENGINE-ERROR: vacuity guard: only %d obligations discharged, baseline has %d\n", discharged, len(base.Names))
 		return 2
 	}
-	writeEvidence(P, prop, tier, seed, vs, encs, discharged, byClass, byBackend, solverTime, maxTime, knownSeen, undecided, violations, unsupported, funcsUnder, wall)
+	// proof-level accounting: "obligations" are the claimed ones (proved at baseline time, i.e. listed in the
+	// baseline); obligations that were never proved (reported above as UNDECIDED) and recorded known findings are
+	// listed separately and are not part of the claim.
+	claimed, claimedDischarged := 0, 0
+	if base != nil {
+		inNames := map[string]bool{}
+		for _, n := range base.Names {
+			inNames[n] = true
+		}
+		for _, v := range vs {
+			_, g := base.Groups[v.Obl.Group()]
+			if inNames[v.Obl.Name] || (g && base.Partial[v.Obl.Group()] == 0) {
+				claimed++
+				if v.Status == "discharged" {
+					claimedDischarged++
+				}
+			}
+		}
+	} else {
+		claimed, claimedDischarged = discharged, discharged
+	}
+	writeEvidence(P, prop, tier, seed, vs, encs, claimedDischarged, byClass, byBackend, solverTime, maxTime, knownSeen, undecided, violations, unsupported, funcsUnder, wall, claimed)
 	if len(violations) > 0 {
 		return 1
 	}
@@ -437,7 +458,7 @@ func fileHash(path string) string {
 }
 
 func writeEvidence(P *Prog, prop, tier string, seed int, vs []*Verdict, encs []*Enc, discharged int, byClass, byBackend map[string]int,
-	solverTime, maxTime float64, knownSeen, undecided, violations, unsupported []string, funcsUnder map[string]bool, wall float64) {
+	solverTime, maxTime float64, knownSeen, undecided, violations, unsupported []string, funcsUnder map[string]bool, wall float64, claimed int) {
 	var samples []map[string]string
 	for i, v := range vs {
 		if i%max(1, len(vs)/8) == 0 && len(samples) < 10 {
@@ -496,8 +517,10 @@ func writeEvidence(P *Prog, prop, tier string, seed int, vs []*Verdict, encs []*
 		"violations":  len(violations),
 		"assumptions": assumptions,
 		"coverage": map[string]interface{}{
-			"obligations":              len(vs),
+			"obligations":              claimed,
 			"discharged":               discharged,
+			"obligations_generated":    len(vs),
+			"obligations_not_claimed":  len(vs) - claimed,
 			"checker_cmd":              "z3-new -in (5.1.0, persistent) | /usr/bin/z3 -in -T:<t> (4.8.12) | cvc5 --lang=smt2 --tlimit=<t> (1.0.3); first definite answer per obligation",
 			"trusted_base":             trusted,
 			"functions_under_contract": funcs,
